@@ -53,3 +53,7 @@ func (c *RecConsumer) run() {
 		}
 	}
 }
+
+// Lock / Unlock give readers consistent access to Chunks.
+func (l *ConsumerLog) Lock()   { l.mu.Lock() }
+func (l *ConsumerLog) Unlock() { l.mu.Unlock() }
